@@ -11,6 +11,9 @@
 //!     text    = the file content as code points `99.108.97...`
 //!   mode    = seq                 EntityTreeService::build_tree (sequential builder)
 //!           | par:<chunk>:<k>     EntityTreeService::new(chunk).build_tree_parallel on a pool of k workers
+//!           | edit:<k>            file k is on disk without its members (its text cut before the first member's line) when
+//!                                 the tree is built and every query is asked a first time; then didChange(k, full
+//!                                 text) and every query again (reported): the answers are those of the full texts
 //!           | sched:<kind>        HOOKS build: chunk 1, one worker per file, a controller at
 //!                                 `entity:between_lookup_and_insert` pairs the workers up: a worker that
 //!                                 reaches the point (its look-up missed) is parked until another worker
@@ -242,8 +245,28 @@ fn hierarchy(ws: &Ws, mode: &str) -> String {
             #[cfg(not(gold_lsp_verif))]
             { return "NOHOOKS".to_string(); }
         }
+        "edit" => {
+            // the tree is built as main_loop does; file k starts WITHOUT its members (see run_case), every query is asked
+            // once (caches warm: symbol tables of k's dependents are chained to k's member-less table), then a didChange
+            // brings k's full text and every query is asked again: only the second round is reported
+            pm.entity_tree_service = EntityTreeService::new(15000, Box::new(SilentLogger));
+            let pool = ThreadPool::new(7, Box::new(SilentLogger));
+            pm.entity_tree_service.build_tree_parallel(&pm.doc_service, &pool);
+            drop(pool);
+            let _ = query_all(&mut pm, ws);
+            let k: usize = m[1].parse().unwrap();
+            if let Some(f) = ws.files.get(k) {
+                let pool = ThreadPool::new(2, Box::new(SilentLogger));
+                let _ = pm.notify_document_changed(&ws.uri(&f.stem), &f.text, &pool);
+                drop(pool);
+            }
+        }
         _ => panic!("bad mode {}", mode),
     }
+    query_all(&mut pm, ws).join(";")
+}
+
+fn query_all(pm: &mut ProjectManager, ws: &Ws) -> Vec<String> {
     let mut out: Vec<String> = Vec::new();
     for f in &ws.files {
         let uri = ws.uri(&f.stem);
@@ -262,7 +285,7 @@ fn hierarchy(ws: &Ws, mode: &str) -> String {
             out.push(format!("{}[{}|{}|{}]", tag, canon_items(prep), sup, sub));
         }
     }
-    out.join(";")
+    out
 }
 
 // ------------------------------------------------------------------------------------------
@@ -464,6 +487,16 @@ pub fn run_case(line: &str) -> String {
         return requests(&ws, &order);
     }
     let ws = Arc::new(Ws::materialise(files));
+    if mode.starts_with("edit") {
+        // file k starts without its members: its text cut before the line of the first member
+        let k: usize = mode.split(':').nth(1).and_then(|x| x.parse().ok()).unwrap_or(0);
+        if let Some(f) = ws.files.get(k) {
+            if let Some(first) = f.members.iter().map(|m| m.line).min() {
+                let cut: String = f.text.split_inclusive('\n').take(first).collect();
+                std::fs::write(ws.dir.0.join(format!("{}.god", f.stem)), cut.as_bytes()).unwrap();
+            }
+        }
+    }
     let ws2 = ws.clone();
     let (tx, rx) = mpsc::channel::<String>();
     let h = std::thread::Builder::new().stack_size(2 << 20).spawn(move || {
